@@ -400,3 +400,97 @@ pub fn cast_val(t: T, v: V) -> Option<V> {
         _ => return None,
     })
 }
+
+// ---- the built-in functions of the modelled subset: HLSL name, ir::Intrinsic variant (HLSL's own names; the harness
+// reads the *emitted* name and decides by this table which built-in it is)
+pub const BUILTINS: &[(&str, &str)] = &[
+    ("abs", "Abs"),
+    ("acos", "Acos"),
+    ("asin", "Asin"),
+    ("atan", "Atan"),
+    ("atan2", "Atan2"),
+    ("cos", "Cos"),
+    ("cosh", "Cosh"),
+    ("sin", "Sin"),
+    ("sinh", "Sinh"),
+    ("tan", "Tan"),
+    ("tanh", "Tanh"),
+    ("sqrt", "Sqrt"),
+    ("rsqrt", "RcpSqrt"),
+    ("pow", "Pow"),
+    ("exp", "Exp"),
+    ("exp2", "Exp2"),
+    ("log", "Log"),
+    ("log2", "Log2"),
+    ("log10", "Log10"),
+    ("floor", "Floor"),
+    ("ceil", "Ceil"),
+    ("trunc", "Trunc"),
+    ("round", "Round"),
+    ("frac", "Frac"),
+    ("fmod", "Fmod"),
+    ("rcp", "Rcp"),
+    ("saturate", "Saturate"),
+    ("sign", "Sign"),
+    ("min", "Min"),
+    ("max", "Max"),
+    ("step", "Step"),
+    ("clamp", "Clamp"),
+    ("lerp", "Lerp"),
+    ("smoothstep", "SmoothStep"),
+    ("isnan", "IsNaN"),
+    ("isinf", "IsInfinite"),
+    ("isfinite", "IsFinite"),
+    ("asint", "AsInt"),
+    ("asuint", "AsUInt"),
+    ("asfloat", "AsFloat"),
+    ("countbits", "CountBits"),
+    ("reversebits", "ReverseBits"),
+    ("firstbithigh", "FirstBitHigh"),
+    ("firstbitlow", "FirstBitLow"),
+    ("f16tof32", "F16ToF32"),
+    ("f32tof16", "F32ToF16"),
+];
+
+pub fn builtin_of_hlsl_name(n: &str) -> Option<&'static str> {
+    BUILTINS.iter().find(|p| p.0 == n).map(|p| p.1)
+}
+pub fn is_modelled_intrinsic(variant: &str) -> bool {
+    BUILTINS.iter().any(|p| p.1 == variant)
+}
+/// result type of a built-in applied at operand type `t` (HLSL's scalar signatures)
+pub fn builtin_ret(variant: &str, t: T) -> T {
+    match variant {
+        "IsNaN" | "IsInfinite" | "IsFinite" => T::Bool,
+        "Sign" | "AsInt" => T::Int,
+        "AsUInt" | "F32ToF16" | "CountBits" | "FirstBitHigh" | "FirstBitLow" => T::Uint,
+        "AsFloat" | "F16ToF32" => T::Float,
+        _ => t,
+    }
+}
+/// the concrete interpretation of the uninterpreted built-ins (must equal Driver/C01.lean `concretePrim.intr`)
+pub fn intr(variant: &str, t: T, vals: &[V]) -> Option<V> {
+    let step = |h: u32, x: u32| (h ^ x).wrapping_mul(16777619);
+    let mut h: u32 = 2166136261;
+    for b in variant.bytes() {
+        h = step(h, b as u32);
+    }
+    for b in t.name().bytes() {
+        h = step(h, b as u32);
+    }
+    for v in vals {
+        let x = match v {
+            V::B(x) => *x as u32,
+            V::I(x) | V::U(x) | V::F(x) => *x,
+            _ => 0xdead,
+        };
+        h = step(h, x);
+    }
+    Some(match builtin_ret(variant, t) {
+        T::Bool => V::B(h & 1 == 1),
+        T::Int => V::I(h),
+        T::Uint => V::U(h),
+        T::Float => V::F(h),
+        _ => return None,
+    })
+}
